@@ -3,7 +3,7 @@ import stat
 import subprocess
 
 from pygopherd import gopherentry
-from pygopherd.handlers.base import VFS_Real
+from pygopherd.handlers.base import is_real_vfs
 from pygopherd.handlers.file import has_fileno
 from pygopherd.handlers.virtual import Virtual
 
@@ -12,7 +12,7 @@ class ExecHandler(Virtual):
     def canhandlerequest(self):
         # We ONLY handle requests from the real filesystem.
         return (
-            isinstance(self.vfs, VFS_Real)
+            is_real_vfs(self.vfs)
             and self.statresult
             and stat.S_ISREG(self.statresult[stat.ST_MODE])
             and (stat.S_IMODE(self.statresult[stat.ST_MODE]) & stat.S_IXOTH)
